@@ -570,3 +570,6 @@ def replay(cs, env):
     for c, cr in env.execute([cs]):
         (judge_documents if c['meta']['kind'] in ('json-model', 'json-oss') else judge)(res, c, cr)
     return res
+
+
+RULE = RULE + ' The systematic C03 families additionally run through ONE long-lived auditor in two orders (failure iff critical error on every call).'
